@@ -8,8 +8,8 @@ package evalfilter
 // definition, recursion, wrong argument counts, unknown functions, built-ins before user-defined
 // functions of the same name - each as a sequence of runs on one evaluator (a run that fails, or
 // returns from inside a loop, leaves nothing behind for the next), optimised and not.
-// Cases that run into the listed finding of C06 (a parameter, local or loop variable whose name is
-// bound in a scope further out) are left out.
+// (Until the repair a406f37 a parameter, local or loop variable whose name was bound in a scope further
+// out overwrote that variable; those cases are part of the list now.)
 
 import (
 	"fmt"
@@ -43,6 +43,15 @@ func TestRAC_C06(t *testing.T) {
 		{"function f() { g = 7; return 0; } f(); return g;", []c06Run{{none, "INTEGER:7", map[string]string{"g": "INTEGER:7"}}}},
 		{"return f(2); function f(a) { return a * 2; }", []c06Run{{none, "INTEGER:4", map[string]string{"a": "NULL:null"}}}},
 		{"function s(n) { if ( n <= 0 ) { return 0; } return n + s(n - 1); } return s(4);", []c06Run{{none, "INTEGER:10", map[string]string{"n": "NULL:null"}}}},
+		{"function fact(n) { if ( n <= 1 ) { return 1; } return fact(n - 1) * n; } return fact(5);", []c06Run{{none, "INTEGER:120", map[string]string{"n": "NULL:null"}}}},
+		{"function g(a) { local a; a = 2; return 0; } function f(a) { g(5); return a; } return f(1);", []c06Run{{none, "INTEGER:1", nil}}},
+		{"function g(n) { n--; return n; } function f(n) { r = g(n); return [r, n]; } return f(10);", []c06Run{{none, "ARRAY:[9, 10]", nil}}},
+		{"function f(a) { foreach a in [1, 2] { } return a; } return f(3);", []c06Run{{none, "INTEGER:3", nil}}},
+		{"function g() { local x; x = 5; return 0; } function f(x) { g(); return x; } return f(3);", []c06Run{{none, "INTEGER:3", nil}}},
+		{"function g() { foreach x in [7, 8] { } return 0; } function f(x) { g(); return x; } return f(3);", []c06Run{{none, "INTEGER:3", nil}}},
+		{"function f(a) { foreach x in [1, 2] { a = a + x; } return a; } return f(10);", []c06Run{{none, "INTEGER:13", nil}}},
+		{"function f() { local t; t = 1; foreach x in [1, 2] { t = t + x; } return t; } t = 50; return [f(), t];", []c06Run{{none, "ARRAY:[4, 50]", nil}}},
+		{"function fib(n) { if ( n < 2 ) { return n; } return fib(n - 1) + fib(n - 2); } return fib(10);", []c06Run{{none, "INTEGER:55", nil}}},
 		{"function f(a) { return a; } return f(1, 2);", []c06Run{{none, "error", nil}}},
 		{"function f(a, b) { return a; } return f(1);", []c06Run{{none, "error", nil}}},
 		{"return nosuch(1);", []c06Run{{none, "error", nil}}},
